@@ -51,9 +51,17 @@ def case_strategy(draw, big=False):
     case['loads'] = lds
     # boundary coordinates in units of the antenna: reflection points lie within a few heights
     env = case['env']
+    # (the first interface may also lie at 0 - the antenna on the shore line, a first zone of radius 0 - or, for a
+    # linear boundary, at negative x)
+    u_ = draw(st.integers(0, 5))
     c = 0.0
     for i, m in enumerate(env['media'][:-1]):
-        c += draw(st.floats(0.05, 6.0)) * lam
+        if i == 0 and u_ == 0:
+            c = 0.0
+        elif i == 0 and u_ == 1 and env.get('boundary') != 'circular' and not env.get('radials'):
+            c = -draw(st.floats(0.05, 3.0)) * lam
+        else:
+            c += draw(st.floats(0.05, 6.0)) * lam
         m['coord'] = gen.r6(c)
     case['split'] = {'which': draw(st.integers(0, len(env['media']) - 1)), 'frac': draw(st.floats(0.1, 0.9)),
                      'beyond': gen.r6(draw(st.floats(1.0, 50.0)) * lam)}
@@ -103,6 +111,28 @@ def reflection_extent(topo, circular):
     return worst, lo
 
 
+def on_interface(topo, media, circular, lam):
+    """True if, for a direction of the grid, the specular reflection point of a pulse lies on an interface (within
+    1e-7 wavelength): which medium it belongs to is then decided by rounding"""
+    coords = [m_['coord'] for m_ in media[:-1] if 'coord' in m_]
+    if not coords:
+        return False
+    ths = [TH[0] + i * TH[1] for i in range(TH[2])]
+    phs = [PH[0] + i * PH[1] for i in range(PH[2])]
+    tol = 1e-7 * lam
+    for p in topo.pulses:
+        x, y, z = p.pt
+        for th in ths:
+            t4 = z * math.tan(math.radians(th))
+            for ph in phs:
+                cx = x + t4 * math.cos(math.radians(ph))
+                cy = y + t4 * math.sin(math.radians(ph))
+                v = math.hypot(cx, cy) if circular else cx
+                if any(abs(v - c_) <= tol for c_ in coords):
+                    return True
+    return False
+
+
 def check(case):
     why = rules.check(case)
     if why:
@@ -121,7 +151,13 @@ def check(case):
         return Result(skipped='sources deliver no net power')
     topo = build.ref_topology(case, m)
     circular = env.get('boundary') == 'circular' or bool(env.get('radials'))
+    if on_interface(topo, media, circular, 299.8 / case['f']):
+        return Result(skipped='a reflection point lies on an interface (medium decided by rounding)')
     hi, lo = reflection_extent(topo, circular)
+    if max(abs(hi), abs(lo)) > 9e5:
+        # the last medium ends at the program's "infinity" of 1e6 m (documented default of the interface coordinate);
+        # kilometre-high structures at 10 kHz reflect beyond it
+        return Result(skipped='reflection points beyond 1e6 m (the documented extent of the last medium)')
     nt = False
     if len(media) >= 2:
         labels.append('media>=2')
@@ -167,11 +203,16 @@ def check(case):
     # (c) split a medium
     sp = case['split']
     i = sp['which']
-    if not (i == 0 and env.get('radials')):
+    lam_ = 299.8 / case['f']
+    degenerate = i == 0 and len(media) > 1 and circular and media[0]['coord'] == 0
+    if not (i == 0 and env.get('radials')) and not degenerate:
         c3 = copy.deepcopy(case)
         ms = c3['env']['media']
         prevc = ms[i - 1]['coord'] if i > 0 else 0.0
-        if i < len(ms) - 1:
+        if i == 0 and len(ms) > 1 and not circular:
+            # the first medium of a linear layout reaches from minus infinity to its interface
+            cut = ms[0]['coord'] - (abs(ms[0]['coord']) + lam_) * sp['frac']
+        elif i < len(ms) - 1:
             cut = prevc + (ms[i]['coord'] - prevc) * sp['frac']
         else:
             cut = prevc + sp['beyond']
@@ -287,6 +328,8 @@ def check(case):
         elif l['kind'] == 'skin_c':
             l['v'] = l['v'] / s_
     try:
+        if max(abs(hi), abs(lo)) * s_ > 9e5:
+            raise build.Rejected('scaled reflection points beyond 1e6 m')
         d = maxdiff(g0, pattern(common.solved(c7)), top=40)
         if d > tolsym:
             fails.append(('symmetry:em-scaling', 'scaling all lengths by %g, frequency and conductivities by 1/%g changes the pattern by %.3g dB' % (s_, s_, d)))
